@@ -16,7 +16,7 @@ META = {
                    "assume_init(b), sub-buffer built from tbuf.unfilled_mut(); (C18.3) Rewind::poll_read (= C08.5); (C18.4) DuplexStream::new gives both ends one tokio::io::duplex pair; "
                    "(C18.5) the crate's unsafe blocks are exactly the eight known blocks in the six known functions."
                    " C18.6 claims the sniffing half of the rewind buffer (progress persisted after every successful read, Rewind given the reader's io and the whole filled buffer); unsafe blocks are filed under their owner with reviewed counts."
-                   " As built now: C18.1 / C18.2 are decision tables of the two read bridges (bridgetable.py: buffers as objects, the inner read a nondeterministic step incl. readers that initialise more than they fill: advance by exactly the bytes filled, initialised before filled, Pending / errors forwarded, one inner poll); C18.3 is the rewind table.",
+                   " As built now: C18.1 / C18.2 are decision tables of the two read bridges (bridgetable.py: buffers as objects, the inner read a nondeterministic step incl. readers that initialise more than they fill: advance by exactly the bytes filled, initialised before filled, the new bytes land right behind those already in the caller's buffer - the region the sub-buffer is built over is followed -, Pending / errors forwarded, one inner poll); C18.3 is the rewind table.",
     "trusted_base": ["rustc type/borrow checker", "tokio::io::ReadBuf / hyper::rt::ReadBuf bookkeeping", "tokio::io::duplex", "rustls / tokio_rustls stream adapters"],
     "assumptions": ["the eight reviewed unsafe blocks are sound under the bookkeeping facts checked by C18.1 / C18.2 / C08.5"],
     "undecided": "tokio's / hyper's buffer types themselves; bytes over all patterns of partial reads and writes (needs execution)",
